@@ -5,15 +5,15 @@ var extraNotes4 = map[string][2]string{
 	"C08": {"rounding rule for the level reduction", "(K2) in decryptChunkData every division of the span-derived length by the per-level capacity rounds up ((x + d-1)/d), so a partially filled last reference is still counted."},
 	"C09": {"threshold rule for the pyramid walk", "(K1) GetPyramid skips the walk over intermediate chunks only for a single-chunk file (span <= ChunkSize), for no larger threshold."},
 	"C13": {"provenance, freshness and write-off rules for the counter write-back", "(P2) the value collectGarbage writes back to gcSize does not depend on any variable accumulated by the candidate-selection callback handed to gcIndex.Iterate; (Lk3) it derives from gcSize.Get() calls made with batchMu held; (G4) the branch that writes the whole counter off is guarded by the emptiness of the slice the selection callback fills."},
-	"C17": {"coverage rule of the all-bits-set test behind the fully-downloaded report", "(V1) BitVector.Equals answers true only after a counting loop from 0 to bv.len (bit form, advancing only behind Get(i)) or to bv.len/8 (byte form, advancing only behind b[j]==0xff, the tail compared under the mask 1<<(len%8)-1) has run to its end; (V2) isDownload answers the constant false or Equals of a vector read from the presence table."},
-	"C19": {"must-stage rule", "(F3) every return of a shed *InBatch method is preceded on all paths by a staging call on the batch parameter, or lies only behind a non-nil error of some call — no method decides from the currently stored value to skip the staging; (W2) every append onto Index.prefix (the filter prefix of Iterate / First / Last) starts from bytes clipped to their length, at the site or at every store of the field — the shared prefix bytes are never written."},
+	"C17": {"coverage rule of the all-bits-set test behind the fully-downloaded report", "(V1) BitVector.Equals answers true only after a counting loop from 0 to bv.len (bit form, advancing only behind Get(i)) or to bv.len/8 (byte form, advancing only behind b[j]==0xff, the tail compared under the mask 1<<(len%8)-1) has run to its end; (V2) isDownload answers the constant false or Equals of a vector read from the presence table; (F3) in the reload callback of initChunkInfoDiscover every return is preceded by putChunkInfoDiscover, lies behind a non-nil error, or is the foreign-key stop; (F4) a fresh per-file entry of the discovery table (presence[file] = make(...)) is followed on every path to the exit by an insertion into it."},
+	"C19": {"must-stage rule", "(F3) every return of a shed *InBatch method is preceded on all paths by a staging call on the batch parameter, or lies only behind a non-nil error of some call — no method decides from the currently stored value to skip the staging; (W2) every append onto Index.prefix (the filter prefix of Iterate / First / Last) starts from bytes clipped to their length, at the site or at every store of the field — the shared prefix bytes are never written; (G4) before the walk Index.Iterate steps the cursor only behind bytes.Equal(start key, cursor key)."},
 	"C39": {"coverage rules", "(V1) as C17.V1; (V2) every counting loop of a BitVector method starts its counter at 0 and only advances it by one (a sufficient condition: a correct skip-ahead optimisation would be reported for review)."},
 	"C22": {"adjacency rule for the saturation pass", "(G4) in recalcDepth's saturation callback the cursor cell (compared == with the peer's bin) is set to the peer's bin only behind bin <= cursor+1: a bin with no reachable peer is not passed over."},
 	"C12": {"removal-list rule shared with C16", "(G4) = C16.G1: the list of chunks an eviction may delete (getUnRepeatChunk) never holds a chunk whose per-file reference count exceeds one."},
 	"C25": {"choice rule for the written duration", "(G2) on the edges carrying each alternative into the written duration: the stored duration is kept only where it is 0 (forever) or the request is not 0; the requested one is written only where the stored one is not 0 and the request is 0 or not smaller."},
 	"C29": {"requested-orders test", "(G4) inArray answers true only behind an equality of the proximity with an element of the requested orders, neither side narrowed first (uint8(order) maps 258 onto 2)."},
 	"C31": {"monotone-write rule for the running totals", "(W2) outside the constructor every assignment to retrieveTraffic / retrieveChequeTraffic / transferTraffic / transferChequeTraffic is max(current, x), current + x on a fresh big.Int, or the cumulative payout of the cheque being recorded — never a plain copy that could lower it."},
-	"C33": {"restore-set exhaustiveness", "(H1) in trafficInit the keys of LastSendCheques() and LastReceivedCheques() are inserted into the address set that getAllAddress / replaceTraffic restore."},
+	"C33": {"restore-set exhaustiveness", "(H1) in trafficInit the keys of LastSendCheques() and LastReceivedCheques() are inserted into the address set that getAllAddress / replaceTraffic restore; (Lk3) the balance Pay hands to issue is computed from Traffic fields read with the peer's mutex held, in the critical section that issues and records the cheque."},
 	"C40": {"ordering rule for subscription vs unsubscription", "(O1) Subscribe queues the subscription before starting the unsubscribing goroutine, and either both travel on one channel or the unsubscription branch of process first receives len(subInfoChan) queued subscriptions before loading the subscriber list."},
 	"C21": {"derived-answer rule for the queries", "(P3) Length / BinSize / BinPeers / ShallowestEmpty / Exists read no field of the set other than the bins, the lock and the fixed configuration (sufficient condition: a cached size would be reported for review)."},
 	"C32": {"atomic test-and-record in Debit", "(Lk2) Debit calls TransferTraffic (the read deciding the refusal) and PutTransferTraffic (the record) with the peer's lock held."},
@@ -24,6 +24,7 @@ var extraNotes4 = map[string][2]string{
 	"C05": {"fresh-storage rule; low-s rule", "(W2) no append in pkg/soc starts from a SOC field or a parameter (the serialisation never writes into the caller's id / signature storage); (G4) RecoverCompact in crypto.Recover is reached only behind big(signature[32:64]).Cmp(half order) <= 0."},
 	"C06": {"every-iteration rule of the pyramid validation", "(G2 ext) the validation loop of GetChunkHashes returns to its head only from the edge where the entry's BMT hash equals its key."},
 	"C11": {"window of the in-call duplicate test; stale committed read", "(P5) put's duplicate test is containsChunk(chs[i].Address(), chs[:i]...) and the store helpers run only behind its negative answer; (B2) inside put's per-chunk loop no helper reads the data index from committed state under a key that is the same for every chunk of the call, unless the read lies behind a committed entry of another index under that key — the one site that does (setGC, the root's BinID) is an open finding."},
+	"C28": {"sign-once rule", "(W2) a function of pkg/routetab that extends a field of the message it is given (msg.Paths = generatePaths(msg.Paths)) is not called inside a loop with an argument that is the same object on every iteration."},
 	"C20": {"scan-width rule", "(K1) the byte limit of the comparison loop in Proximity / ExtendedProximity starts from a constant K with K*8 >= the function's own cap (MaxPO / ExtendedPO)."},
 }
 
